@@ -57,7 +57,7 @@ func init() {
 		runLogoutStream(c, c.N(500, 8000))
 	}
 	runners["C20"] = func(c *Ctx) {
-		c.Rep.Rule = "pre-decode (DecodeUnverifiedBaseResponse / DecodeUnverifiedLogoutResponse) vs full validation on genuine messages in the C08 layouts plus attacker-shaped roots (duplicated, prefixed, xmlns-named attributes, leading whitespace / comments), raw/DEFLATE; non-trivial = shaped root; distinct by label set"
+		c.Rep.Rule = "pre-decode (DecodeUnverifiedBaseResponse / DecodeUnverifiedLogoutResponse) vs full validation on genuine messages in the C08 layouts plus attacker-shaped roots (duplicated, prefixed, xmlns-named attributes, leading whitespace / comments, XML declarations naming another encoding than UTF-8, U+000D in a root attribute value as a character reference), raw/DEFLATE; non-trivial = shaped root; distinct by label set"
 		runPredecodeStream(c, c.N(500, 8000))
 	}
 }
